@@ -527,7 +527,13 @@ class C17:
             state_after, model_same, model_replicas = parts[1], parts[2], int(parts[3])
             if state_after != "closing":
                 self.ask("frame %d cmd %s %s" % (uid, hx(b"PING"), hx(nonce)))
-            cls, nleak, pushed = self.classify_frames(pipe, frames)
+            # frames behind a QUIT that ended the batch are neither executed nor answered (`skipped`): the replies belong to the others
+            executed = [q for q, v in zip(pipe, spec) if v != "skipped"]
+            cls, nleak, pushed = self.classify_frames(executed, frames)
+            if cls is not None and len(executed) != len(pipe):
+                it = iter(cls)
+                cls = [next(it) if v != "skipped" else "skipped" for v in spec]
+                self.rep.count("frames-behind-quit.not-answered", len(pipe) - len(executed))
             leaked_here += nleak
             self.compare(rec, pipe, cls, nleak, pushed, how, code, spec, stage="pipe", state_after=state_after)
             # -- side effects: everything the control connection sees, against the baseline
@@ -574,6 +580,7 @@ class C17:
             rec["problems"].append({"kind": "oracle", "why": "replies cannot be aligned with the requests (%s): one reply per request expected" % how, "stage": stage})
             return
         for i, (q, a, c, v) in enumerate(zip(reqs, cls, code, spec)):
+            a, c = canon_class(a), canon_class(c)
             rep.count("reply." + a.split(" ")[0])
             # the property's oracle
             if v == "must-refuse" and not a.startswith("err"):
@@ -955,6 +962,9 @@ def main(tier, seed):
         # -- 1a. connection-state commands executed indirectly (EXEC's substitute connection id, scripts): nobody else is promoted
         if not budget.spent():
             recs += indirect_family(c17, budget)
+        # -- 1c. QUIT ends the batch
+        if not budget.spent():
+            recs += quit_family(c17, r, tier, sts, budget)
         # -- 1b. blocking commands and the frames kept back behind them
         if not budget.spent():
             recs += blocked_family(c17, r, tier, sts, budget)
@@ -1269,6 +1279,39 @@ def config_value_family(c17, r, tier, budget):
             break
     c17.rep.extra["config_values_not_expressible"] = skipped
     c17.start_server(DEFAULT_MODE)
+    return recs
+
+
+def quit_family(c17, r, tier, sts, budget):
+    """QUIT ends the batch: nothing behind it in the same write is executed or answered — before authentication (an AUTH parked
+    behind QUIT must not run either), after it, and for every spelling the frame loop takes for QUIT; a name with blanks around it
+    is not QUIT.  The dataset, the replica table and the bystanders are looked at after every case as always."""
+    recs = []
+    get, ping, sync = Req(b"GET", [canary_key(0)]), Req(b"PING", []), Req(b"SYNC", [])
+    auth, ghost, flush = Req(b"AUTH", [PASSWORD]), Req(b"SET", [b"c17:ghost", b"1"]), Req(b"FLUSHALL", [])
+    pipes = []
+    for qn in (b"QUIT", b"quit", "QU\u0131T".encode()):
+        q = Req(qn, [])
+        pipes += [("quit;auth;set-ghost;get", [q, auth, ghost, get], 1), ("ping;quit;sync;psync", [ping, q, sync, Req(b"PSYNC", [b"?", b"-1"])], 2),
+                  ("auth-wrong;quit;auth;flushall", [Req(b"AUTH", [b"wrong-password"]), q, auth, flush], 2),
+                  ("quit;quit;subscribe;monitor", [q, q, Req(b"SUBSCRIBE", [CHAN]), Req(b"MONITOR", [])], 2),
+                  # authenticated in the same write, then QUIT: what follows would be allowed — and still must not run
+                  ("auth;set-probe;quit;set-ghost;flushall", [auth, Req(b"SET", [b"c17:probe", b"q"]), q, ghost, flush], 3)]
+    for qn in (b" QUIT", b"QUIT ", b"\tquit"):
+        q = Req(qn, [])
+        pipes += [("blank-quit;get;ping", [q, get, ping], 0)]
+    use = sts[:2] + ([sts[2 + r.below(len(sts) - 2)] for _ in range(2)] if tier == "quick" else sts[2:])
+    for st_tag, pre, other in use:
+        for tag, pipe, target in pipes:
+            rec = c17.run_case({"tag": "quit/%s/%s/%s" % (tag, pipe[[x.name.strip().upper() for x in pipe].index(b"QUIT") if b"QUIT" in [x.name.strip().upper() for x in pipe] else 0].name.decode("latin-1"), st_tag),
+                                "pre": pre, "other_auth": other, "pipe": pipe, "target": target})
+            budget.note(rec)
+            c17.rep.nontrivial(("quit", tag, st_tag.split(":")[0], tclass(rec, target).split(" ")[0], rec["code"][-1]["state_after"] if rec["code"] else "?"))
+            c17.rep.count("quit-family")
+            if rec["problems"]:
+                recs.append(rec)
+            if budget.spent():
+                return recs
     return recs
 
 
